@@ -6,16 +6,21 @@
 // them (for `go build -overlay`). Extra files can be added to package directories (-add).
 //
 // Rules (syntactic, local):
+//
 //	go FUNCLIT(args)            -> func(params){ vrt.Go(func(){ BODY }) }(args)
-//	go f(args)                  -> func(p0.. T){ vrt.Go(func(){ f(p0..) }) }(args)   (not needed today: unsupported => error)
-//	make(chan int|string [,n])  -> vrt.MakeChanInt(n) / vrt.MakeChanString(n)
+//	go f(args)                  -> { f0 := f; a0 := arg0; ...; vrt.Go(func(){ f0(a0, ...) }) }
+//	chan T (any position)       -> *vrt.Chan[T]
+//	make(chan T [,n])           -> vrt.MakeChan[T](n)   (vrt.MakeChanInt / MakeChanString for int / string)
 //	ch <- v                     -> ch.Send(v)
 //	<-ch                        -> ch.Recv()
 //	import "sync"               -> import sync "owverif.local/verif/vrt/vsync"
 //	time.Sleep(d)               -> vrt.Sleep(d)
 //	os.Exit(n)                  -> vrt.Exit(n)
-// Anything it cannot model (select, close, range over a channel, other channel element types, a chan type
-// in a declaration) is a hard error: the tool exits 2 with file:line.
+//
+//	close(ch)                   -> ch.Close()
+// What it cannot model: select is reported by the tool (exit 2 with file:line); a range over a channel,
+// a comma-ok receive and len/cap of a channel make the instrumented build fail. In both cases the calling check
+// reports that it cannot instrument this tree (see scripts/sched_build.sh).
 package main
 
 import (
@@ -29,6 +34,7 @@ import (
 	"go/token"
 	"os"
 	"path/filepath"
+	"reflect"
 	"strings"
 )
 
@@ -51,11 +57,39 @@ func sel(x, name string) *ast.SelectorExpr {
 type rewriter struct {
 	usedVrt          bool
 	timeUsed, osUsed bool
+	tmp              int
 	counts           map[string]int
 }
 
+// chanOf builds the type *vrt.Chan[elem].
+func chanOf(elem ast.Expr) ast.Expr {
+	return &ast.StarExpr{X: &ast.IndexExpr{X: sel("vrt", "Chan"), Index: elem}}
+}
+
+// elemOfChan returns T when e is the rewritten type *vrt.Chan[T].
+func elemOfChan(e ast.Expr) ast.Expr {
+	st, ok := e.(*ast.StarExpr)
+	if !ok {
+		return nil
+	}
+	ix, ok := st.X.(*ast.IndexExpr)
+	if !ok {
+		return nil
+	}
+	if se, ok := ix.X.(*ast.SelectorExpr); ok {
+		if pkg, ok := se.X.(*ast.Ident); ok && pkg.Name == "vrt" && se.Sel.Name == "Chan" {
+			return ix.Index
+		}
+	}
+	return nil
+}
+
+// expr rewrites one expression whose sub-expressions have been rewritten already.
 func (r *rewriter) expr(e ast.Expr) ast.Expr {
 	switch x := e.(type) {
+	case *ast.ChanType: // any channel type, directional or not, in any position
+		r.usedVrt = true
+		return chanOf(x.Value)
 	case *ast.UnaryExpr:
 		if x.Op == token.ARROW {
 			r.counts["recv"]++
@@ -63,26 +97,26 @@ func (r *rewriter) expr(e ast.Expr) ast.Expr {
 		}
 	case *ast.CallExpr:
 		if id, ok := x.Fun.(*ast.Ident); ok && id.Name == "make" && len(x.Args) >= 1 {
-			if ct, ok := x.Args[0].(*ast.ChanType); ok {
-				elem, _ := ct.Value.(*ast.Ident)
-				if elem == nil || (elem.Name != "int" && elem.Name != "string") {
-					fail(x.Pos(), "make(chan T) with T other than int/string")
-				}
+			if elem := elemOfChan(x.Args[0]); elem != nil {
 				var n ast.Expr = &ast.BasicLit{Kind: token.INT, Value: "0"}
 				if len(x.Args) > 1 {
 					n = x.Args[1]
 				}
 				r.usedVrt = true
 				r.counts["makechan"]++
-				name := "MakeChanInt"
-				if elem.Name == "string" {
-					name = "MakeChanString"
+				if id, ok := elem.(*ast.Ident); ok && (id.Name == "int" || id.Name == "string") {
+					name := "MakeChanInt"
+					if id.Name == "string" {
+						name = "MakeChanString"
+					}
+					return &ast.CallExpr{Fun: sel("vrt", name), Args: []ast.Expr{n}}
 				}
-				return &ast.CallExpr{Fun: sel("vrt", name), Args: []ast.Expr{n}}
+				return &ast.CallExpr{Fun: &ast.IndexExpr{X: sel("vrt", "MakeChan"), Index: elem}, Args: []ast.Expr{n}}
 			}
 		}
-		if id, ok := x.Fun.(*ast.Ident); ok && id.Name == "close" {
-			fail(x.Pos(), "close(ch)")
+		if id, ok := x.Fun.(*ast.Ident); ok && id.Name == "close" && len(x.Args) == 1 {
+			r.counts["close"]++
+			return &ast.CallExpr{Fun: &ast.SelectorExpr{X: x.Args[0], Sel: ast.NewIdent("Close")}}
 		}
 		if s, ok := x.Fun.(*ast.SelectorExpr); ok {
 			if pkg, ok := s.X.(*ast.Ident); ok {
@@ -102,117 +136,98 @@ func (r *rewriter) expr(e ast.Expr) ast.Expr {
 	return e
 }
 
-// apply walks the file, replacing expressions and statements in place.
-func (r *rewriter) file(f *ast.File) {
-	// statements first (they contain expressions that are rewritten afterwards)
-	var stmts func(list []ast.Stmt)
-	rewriteStmt := func(s ast.Stmt) ast.Stmt {
-		switch x := s.(type) {
-		case *ast.GoStmt:
-			lit, ok := x.Call.Fun.(*ast.FuncLit)
-			if !ok {
-				fail(x.Pos(), "go statement on something other than a function literal")
-			}
-			r.usedVrt = true
-			r.counts["go"]++
+// stmt rewrites one statement whose parts have been rewritten already.
+func (r *rewriter) stmt(s ast.Stmt) ast.Stmt {
+	switch x := s.(type) {
+	case *ast.GoStmt:
+		r.usedVrt = true
+		r.counts["go"]++
+		if lit, ok := x.Call.Fun.(*ast.FuncLit); ok {
 			inner := &ast.FuncLit{Type: &ast.FuncType{Params: &ast.FieldList{}}, Body: lit.Body}
 			spawn := &ast.ExprStmt{X: &ast.CallExpr{Fun: sel("vrt", "Go"), Args: []ast.Expr{inner}}}
 			outer := &ast.FuncLit{Type: lit.Type, Body: &ast.BlockStmt{List: []ast.Stmt{spawn}}}
 			return &ast.ExprStmt{X: &ast.CallExpr{Fun: outer, Args: x.Call.Args}}
-		case *ast.SendStmt:
-			r.counts["send"]++
-			return &ast.ExprStmt{X: &ast.CallExpr{Fun: &ast.SelectorExpr{X: x.Chan, Sel: ast.NewIdent("Send")}, Args: []ast.Expr{x.Value}}}
-		case *ast.SelectStmt:
-			fail(x.Pos(), "select")
-		case *ast.RangeStmt:
-			// a range over a channel cannot be recognised syntactically; channels only come from make(chan ..) which
-			// is rewritten to a *vrt.Chan, and ranging over that does not compile: caught by the compiler.
 		}
-		return s
+		// go f(a, b): the function value and the arguments are evaluated now, the call runs in the new thread
+		r.tmp++
+		var pre []ast.Stmt
+		bind := func(e ast.Expr, k string) ast.Expr {
+			name := ast.NewIdent(fmt.Sprintf("vrtGo%d%s", r.tmp, k))
+			pre = append(pre, &ast.AssignStmt{Lhs: []ast.Expr{name}, Tok: token.DEFINE, Rhs: []ast.Expr{e}})
+			return ast.NewIdent(name.Name)
+		}
+		call := &ast.CallExpr{Fun: bind(x.Call.Fun, "f"), Ellipsis: x.Call.Ellipsis}
+		for i, a := range x.Call.Args {
+			call.Args = append(call.Args, bind(a, fmt.Sprintf("a%d", i)))
+		}
+		inner := &ast.FuncLit{Type: &ast.FuncType{Params: &ast.FieldList{}}, Body: &ast.BlockStmt{List: []ast.Stmt{&ast.ExprStmt{X: call}}}}
+		pre = append(pre, &ast.ExprStmt{X: &ast.CallExpr{Fun: sel("vrt", "Go"), Args: []ast.Expr{inner}}})
+		return &ast.BlockStmt{List: pre}
+	case *ast.SendStmt:
+		r.counts["send"]++
+		return &ast.ExprStmt{X: &ast.CallExpr{Fun: &ast.SelectorExpr{X: x.Chan, Sel: ast.NewIdent("Send")}, Args: []ast.Expr{x.Value}}}
+	case *ast.SelectStmt:
+		fail(x.Pos(), "select")
 	}
-	stmts = func(list []ast.Stmt) {
-		for i := range list {
-			list[i] = rewriteStmt(list[i])
+	// (a range over a channel, a comma-ok receive and len/cap of a channel do not compile against *vrt.Chan: the
+	// instrumented build fails and the check reports that it cannot instrument this tree)
+	return s
+}
+
+var (
+	exprType = reflect.TypeOf((*ast.Expr)(nil)).Elem()
+	stmtType = reflect.TypeOf((*ast.Stmt)(nil)).Elem()
+)
+
+// walk rewrites every expression and statement below v, children first.
+func (r *rewriter) walk(v reflect.Value) {
+	switch v.Kind() {
+	case reflect.Ptr, reflect.Interface:
+		if v.IsNil() {
+			return
+		}
+		switch v.Interface().(type) {
+		case *ast.Object, *ast.Scope, *ast.CommentGroup, *ast.Comment:
+			return
+		}
+		r.walk(v.Elem())
+	case reflect.Struct:
+		for i := 0; i < v.NumField(); i++ {
+			r.slot(v.Field(i))
+		}
+	case reflect.Slice:
+		for i := 0; i < v.Len(); i++ {
+			r.slot(v.Index(i))
 		}
 	}
-	ast.Inspect(f, func(n ast.Node) bool {
-		switch x := n.(type) {
-		case *ast.BlockStmt:
-			stmts(x.List)
-		case *ast.CaseClause:
-			stmts(x.Body)
-		case *ast.CommClause:
-			stmts(x.Body)
-		case *ast.LabeledStmt:
-			x.Stmt = rewriteStmt(x.Stmt)
-		case *ast.ChanType:
-			// only allowed as the argument of make(), which is replaced below before we get here on a second pass
+}
+
+func (r *rewriter) slot(f reflect.Value) {
+	if !f.CanSet() {
+		return
+	}
+	switch {
+	case f.Type() == exprType:
+		if f.IsNil() {
+			return
 		}
-		return true
-	})
-	// expressions: replace through parents
-	ast.Inspect(f, func(n ast.Node) bool {
-		switch x := n.(type) {
-		case *ast.AssignStmt:
-			for i := range x.Rhs {
-				x.Rhs[i] = r.expr(x.Rhs[i])
-			}
-			for i := range x.Lhs {
-				x.Lhs[i] = r.expr(x.Lhs[i])
-			}
-		case *ast.ExprStmt:
-			x.X = r.expr(x.X)
-		case *ast.CallExpr:
-			for i := range x.Args {
-				x.Args[i] = r.expr(x.Args[i])
-			}
-			x.Fun = r.expr(x.Fun)
-		case *ast.BinaryExpr:
-			x.X, x.Y = r.expr(x.X), r.expr(x.Y)
-		case *ast.ParenExpr:
-			x.X = r.expr(x.X)
-		case *ast.ReturnStmt:
-			for i := range x.Results {
-				x.Results[i] = r.expr(x.Results[i])
-			}
-		case *ast.ValueSpec:
-			for i := range x.Values {
-				x.Values[i] = r.expr(x.Values[i])
-			}
-		case *ast.IfStmt:
-			x.Cond = r.expr(x.Cond)
-		case *ast.SwitchStmt:
-			if x.Tag != nil {
-				x.Tag = r.expr(x.Tag)
-			}
-		case *ast.KeyValueExpr:
-			x.Value = r.expr(x.Value)
-		case *ast.CompositeLit:
-			for i := range x.Elts {
-				x.Elts[i] = r.expr(x.Elts[i])
-			}
-		case *ast.IndexExpr:
-			x.Index = r.expr(x.Index)
-		case *ast.SelectorExpr:
-			x.X = r.expr(x.X)
-		case *ast.UnaryExpr:
-			if x.Op != token.ARROW {
-				x.X = r.expr(x.X)
-			}
+		r.walk(f)
+		if e := r.expr(f.Interface().(ast.Expr)); e != nil {
+			f.Set(reflect.ValueOf(e))
 		}
-		return true
-	})
-	// any channel type left over is something we cannot model
-	ast.Inspect(f, func(n ast.Node) bool {
-		if ct, ok := n.(*ast.ChanType); ok {
-			fail(ct.Pos(), "channel type outside make(chan int|string)")
+	case f.Type() == stmtType:
+		if f.IsNil() {
+			return
 		}
-		if u, ok := n.(*ast.UnaryExpr); ok && u.Op == token.ARROW {
-			fail(u.Pos(), "receive expression in a position the rewriter does not handle")
-		}
-		return true
-	})
-	// imports
+		r.walk(f)
+		f.Set(reflect.ValueOf(r.stmt(f.Interface().(ast.Stmt))))
+	default:
+		r.walk(f)
+	}
+}
+
+func (r *rewriter) file(f *ast.File) {
+	r.walk(reflect.ValueOf(f))
 	for _, imp := range f.Imports {
 		if imp.Path.Value == `"sync"` {
 			imp.Path.Value = `"owverif.local/verif/vrt/vsync"`
@@ -290,10 +305,23 @@ func main() {
 			os.Exit(2)
 		}
 		text := buf.String()
+		if r.usedVrt && !strings.Contains(text, "//go:build") {
+			// the rewritten file may use a generic channel type; the repository's go.mod still says go 1.12, and a
+			// go1.N build line raises the language version for this one file
+			text = "//go:build go1.18\n\n" + text
+		}
 		if r.usedVrt {
 			text = strings.Replace(text, "import (", "import (\n\tvrt \"owverif.local/verif/vrt\"", 1)
 			if !strings.Contains(text, "vrt \"owverif.local/verif/vrt\"") {
 				text = strings.Replace(text, "\nimport ", "\nimport vrt \"owverif.local/verif/vrt\"\nimport ", 1)
+			}
+			if !strings.Contains(text, "vrt \"owverif.local/verif/vrt\"") { // a file without imports
+				i := strings.Index(text, "\npackage ")
+				if strings.HasPrefix(text, "package ") {
+					i = 0
+				}
+				j := i + strings.Index(text[i+1:], "\n") + 1
+				text = text[:j+1] + "\nimport vrt \"owverif.local/verif/vrt\"\n" + text[j+1:]
 			}
 		}
 		if r.timeUsed {
